@@ -328,6 +328,39 @@ def run(ctx):
                 ctx.ok("remaining-len", {"remaining": "moves.len() - promotion (in size_hint; len() is the provided default)"})
     ctx.check(oks, "size_hint-exact", "size_hint is not (n, Some(n)) with n the remaining length batch.len() - promotion counter", loc(sb))
 
+    # other ways the iterator reports how much is left: an override of the provided `count` must be the remaining length
+    # too (the provided default walks `next`, which the rules above decide); overrides of further provided methods are
+    # not read (noted)
+    ITER = "<" + PM + "PieceMovesIter as core::iter::traits::iterator::Iterator>::"
+    for k_ in sorted(f.bodies):
+        if not k_.startswith(ITER) or "{closure" in k_:
+            continue
+        m_ = k_[len(ITER):]
+        if m_ in ("next", "size_hint"):
+            continue
+        if m_ == "count":
+            cb_ = f.bodies[k_]
+
+            def is_remaining_by_value(r_):
+                # count(self) takes the iterator by value: the same number over the fields of the value itself
+                if not (r_[0] == "bin" and r_[1] == "Sub" and r_[2][0] == "call" and r_[2][1] == PM + "PieceMoves::len"):
+                    return False
+                c_ = r_[3][2] if r_[3][0] == "cast" and r_[3][1] == "usize" else r_[3]
+                a_ = r_[2][2][0]
+                while a_[0] in ("ref", "deref"):
+                    a_ = a_[1]
+                own_ = lambda x_, fl_: x_[0] == "field" and x_[2] == fl_ and x_[1] in (("param", "self"), ("obj", "self"))
+                return own_(c_, CNT) and own_(a_, BATCH)
+            cps_ = sym.SymExec(f, cb_, inline=lambda n: False if n == PM + "PieceMoves::len" else None).run()
+            okc_ = bool(cps_)
+            for p_ in cps_:
+                r_ = p_.ret
+                okc_ = okc_ and r_ is not None and (is_remaining(r_) or is_remaining_by_value(r_) or
+                                                    (r_[0] == "call" and r_[1].endswith("ExactSizeIterator>::len") and (own_len or xb is None)))
+            ctx.check(okc_, "count-is-remaining", "the iterator's own count() is not the remaining length batch.len() - promotion counter: %s"
+                      % (sym.show(cps_[0].ret)[:120] if cps_ and cps_[0].ret is not None else None), loc(cb_))
+        else:
+            ctx.note("the iterator overrides the provided method %s: not read by this rule" % m_)
     # ------------------------------------------------------------------ has
     ctx.rule("has")
     hb = f.need(PM + "PieceMoves::has")
